@@ -82,6 +82,13 @@ func VerifC02Pool() {
 			if report {
 				tracked, recorded = true, now
 			}
+			// the keep-alive was processed up to the charge: a stale tracked record has been evicted,
+			// although this reply (an error) does not list it
+			if age := int64(now.Sub(recorded)); tracked && age > 120000000000 {
+				tracked = false
+			} else if tracked && age == 120000000000 {
+				return // exactly on the edge: either way, nothing more to compare on this path
+			}
 			last = now
 			continue
 		}
